@@ -90,8 +90,33 @@ def gen_stress():
     return d
 
 
-def jobs(prop, tier, only_fn=None):
+def fold_string_jobs(prop, tier, only_fn=None):
+    """wcsfc_s on 2-character strings over an alphabet with multi-character folds (harness/h_wfold.c): C01 C03 C04 C05 C08 (+C17 sanity)."""
     out = []
+    if prop not in ("C01", "C03", "C04", "C05", "C08", "C17") or (only_fn and only_fn != "wcsfc_s"):
+        return out
+    files = ["src/extwchar/wcsfc_s.c", "src/extwchar/towfc_s.c", "src/extwchar/towctrans.c", "src/extwchar/wcsnorm_s.c"] + SUP
+    dobjs = [1, 2, 3, 5] if tier == "quick" else [1, 2, 3, 4, 5, 6, 7, 8, 10]
+    # source strings sliced concretely: first character x (nothing | second character)
+    seconds = [8, 0] if tier == "quick" else [8, 0, 1, 2, 3, 4, 5, 6, 7]
+    for a in range(8):
+        for b in seconds:
+            for d in dobjs:
+                out.append(Job("wcsfc_s.%s.str.s%d_%d.d%d" % (prop, a, b, d), prop, "h_wfold.c", files,
+                               defines=["-DDOBJ=%d" % d, "-DVH_MEMSET_WORD", "-DFIX_DMAX=%d" % d, "-DS0=%d" % a, "-DS1=%d" % b],
+                               models=("libc_models.c", "wide_models.c"), unwind_default=12, unwind_rules=[(r"^memset\.", 14), (r"^memcpy\.", 40), (r"^_towfc_s_chk\.", 130), (r"^_towcase\.", 320), (r"^_towfc_single\.", 130)],
+                               memchecks=(prop == "C01"), fn="wcsfc_s", object_bits=12,
+                               bounds={"src": "concrete: ALPHA[%d]%s of {a A U+DF U+FB03 U+1F80 U+130 U+3A3 U+1E9E}" % (a, "" if b == 8 else " ALPHA[%d]" % b),
+                                       "dest object = dmax": d, "dest prefill, object-size knowledge, lenp": "symbolic", "locale": "C (model)"}, timeout=300))
+    out.append(Job("wcsfc_s.%s.str.guard" % prop, prop, "h_wfold.c", files, defines=["-DDOBJ=2", "-DVH_MEMSET_WORD", "-DS0=0", "-DS1=8"],
+                   models=("libc_models.c", "wide_models.c"), unwind_default=12, unwind_rules=[(r"^memset\.", 14), (r"^memcpy\.", 40), (r"^_towfc_s_chk\.", 130), (r"^_towcase\.", 320), (r"^_towfc_single\.", 130)],
+                   memchecks=(prop == "C01"), fn="wcsfc_s", object_bits=12,
+                   bounds={"src": "\"a\"", "dmax": "symbolic (0, 1, 2, rejected sizes), dest NULL / src NULL"}, timeout=300))
+    return out
+
+
+def jobs(prop, tier, only_fn=None):
+    out = fold_string_jobs(prop, tier, only_fn)
     if prop != "C17":
         return out
     quick = tier == "quick"
